@@ -1,7 +1,8 @@
 (* C02 — who may write which frame.  Caller-owned frames / series, the private frames of data objects and the frames
    handed out (`.df`, prediction results) are locations of a store; constructors, `.df`, fit/predict and the caller's
    own in-place writes are operations on it.  Whether a constructor writes into its argument before copying it, and
-   whether `.df` hands out a copy or the private frame itself, is a configuration per data class, read from the
+   whether each frame accessor (`.df`, `.billing_df`, ...) hands out a new copy at every access or a frame stored in
+   the object (plain attribute, property without copy, cached property), is a configuration per data class, read from the
    source on every run (harness/translate_c02.py -> Generated/C02Gen.v).
    Also: the ownership of the warning / disqualification lists in fit().
    What pandas itself shares between a frame and its copy (views, the index array) is NOT modelled: the harness
@@ -37,13 +38,19 @@ Definition normalise (c : dclass) (elec : bool) (f : frame) : frame :=
      dtcol := dtcol f && negb (moves_dtcol c);
      ver := ver f |}.
 
+(* every public attribute / property of a data class through which a frame is handed out *)
+Inductive accessor := ADf | ABillingDf | AOther.
+
 Record ccfg := {
   init_writes_arg : bool;      (* the frame constructor writes into its argument (no copy before the first write) *)
   series_writes_arg : bool;    (* from_series writes into the series it is given *)
-  df_is_copy : bool            (* `.df` returns a copy of the private frame *)
+  handout_copies : accessor -> bool
+     (* the accessor is a property whose every access builds a new copy.  false: a plain attribute, a property returning
+        the stored frame, or a cached property (the copy is made once, every access hands out the SAME stored frame):
+        in all three cases the caller gets a reference to a frame that belongs to the data object's state *)
 }.
 Definition cfg := dclass -> ccfg.
-Definition safe_ccfg : ccfg := {| init_writes_arg := false; series_writes_arg := false; df_is_copy := true |}.
+Definition safe_ccfg : ccfg := {| init_writes_arg := false; series_writes_arg := false; handout_copies := fun _ => true |}.
 
 Inductive owner := Caller | Obj (c : dclass) | Hand.
 Record cell := { own : owner; val : frame }.
@@ -79,7 +86,7 @@ Inductive sop :=
 | SNew (f : frame)                                       (* the caller makes a frame of its own *)
 | SInit (c : dclass) (elec : bool) (src : nat)           (* obj := c(frame at src, is_electricity_data=elec) *)
 | SSeries (c : dclass) (elec : bool) (meter : option nat) (temp : nat)   (* obj := c.from_series(meter, temp, elec) *)
-| SDf (o : nat)                                          (* h := obj.df *)
+| SDf (a : accessor) (o : nat)                           (* h := obj.df / obj.billing_df / ... *)
 | SPredict (o : nat)                                     (* model.predict(obj): a result frame for the caller *)
 | SFit (o : nat)                                         (* model.fit(obj) *)
 | SMutate (l : nat) (v : Z).                             (* the caller writes into a frame it holds *)
@@ -111,10 +118,10 @@ Definition created (g : cfg) (s : store) (o : sop) : option (owner * frame * boo
   | SSeries c elec m t =>
       if holds s t && match m with Some l => holds s l | None => true end
       then option_map (fun x => (Obj c, normalise c elec (val x), false)) (nth_error (cells s) t) else None
-  | SDf o =>
+  | SDf a o =>
       match nth_error (cells s) o with
       | Some x => match own x with
-                  | Obj c => if df_is_copy (g c) then Some (Hand, val x, true) else None
+                  | Obj c => if handout_copies (g c) a then Some (Hand, val x, true) else None
                   | _ => None
                   end
       | None => None
@@ -130,10 +137,10 @@ Definition created (g : cfg) (s : store) (o : sop) : option (owner * frame * boo
 (* `.df` without a copy: the caller gets a reference to the private frame itself *)
 Definition leaked (g : cfg) (s : store) (o : sop) : option nat :=
   match o with
-  | SDf o =>
+  | SDf a o =>
       match nth_error (cells s) o with
       | Some x => match own x with
-                  | Obj c => if df_is_copy (g c) then None else Some o
+                  | Obj c => if handout_copies (g c) a then None else Some o
                   | _ => None
                   end
       | None => None
